@@ -668,7 +668,9 @@ void var_opt_sketch<T, A>::reset() {
       data_[i].~T();
   }
 
-  if (curr_items_alloc_ < prev_alloc) {
+  // the arrays must follow curr_items_alloc_ in both directions: a sketch restored from an image of a few
+  // items owns arrays smaller than the initial size computed above
+  if (curr_items_alloc_ != prev_alloc) {
     const bool is_gadget = (marks_ != nullptr);
   
     allocator_.deallocate(data_, prev_alloc);
